@@ -218,11 +218,12 @@ func c09Exec(p *harness.Plan) *harness.Outcome {
 		for k, d := range ds {
 			from := c.External()
 			delay := time.Duration(k)*3*time.Millisecond + vr.Dur(0, 40*time.Millisecond)
-			var body *common.VersionedTransaction
-			if vr.Chance(0.7) {
-				body = it.tx
-			}
-			inj.deliver(from, c.Nodes[d.to], body, d.v.snap, delay)
+			// the body always travels ahead of the finalization: a node that
+			// misses a body asks the chain owner for it and then queues and
+			// proposes it itself, and an honest owner choosing its own
+			// references concurrently with injected history on its chain is
+			// not a situation a real network can produce
+			inj.deliver(from, c.Nodes[d.to], it.tx, d.v.snap, delay)
 		}
 		c.Trace.Logf(c.Q.Now, "inject chain %s r%d ts%d variants=%d", it.chain.id.String()[:6], it.snap.RoundNumber, it.snap.Timestamp, len(vs))
 	}
